@@ -37,7 +37,7 @@ def build_and_run(wt, mdir, readme, tag):
     extra = []
     if "-DLIBLCB_VERIF" in readme:
         extra.append("-DLIBLCB_VERIF")
-    for fl in ("-fsanitize=thread", "-fsanitize=address,undefined", "-fsanitize=address", "-msse4.1", "-O0", "-O2"):
+    for fl in ("-fsanitize=thread", "-fsanitize=address,undefined", "-fsanitize=address", "-msse4.1", "-msha", "-mssse3", "-O0", "-O2"):
         if fl in readme:
             extra.append(fl)
             if fl.startswith("-fsanitize"):
